@@ -229,6 +229,8 @@ class QueryGen:
         self.must_refuse = False
         self.sites = 0
         self.maxdepth = 0
+        self.outer = []       # parameters of enclosing immediately called lambdas: (name, level, lambda depth)
+        self.fresh = 0
 
     def var(self, depth):
         return "x" if self.reuse else "v%d" % depth
@@ -271,13 +273,31 @@ class QueryGen:
         choices = ["m", "val", "fn", "tuple", "binop", "called"]
         if level + 1 < LEVELS:
             choices += ["nest", "nest", "nest", "dictnest", "tupnest", "where", "where", "wherecount", "many", "count", "jc", "jc"]
+        # the parameter of an enclosing called lambda used one or more operator lambdas further in: still typed, its call
+        # sites are normalised (and refused when a required argument is missing) like any other
+        avail = [o for o in self.outer if o[2] < depth]
+        if avail:
+            choices += ["outer", "outer", "outer"]
         k = r.choice(choices)
+        if k == "outer":
+            zo, lo, _ = r.choice(avail)
+            clso = self.model.ns["L%d" % lo]
+            return self.typed_call(clso.m, self.info[lo]["m"], A(N(zo), SHARED), A(N(zo), SHARED), zo, True)
         if k == "m":
             return self.typed_call(cls.m, self.info[level]["m"], A(N(v), SHARED), A(N(v), SHARED), v, True)
         if k == "called":
             # an immediately called lambda: the typed call sites of its body are normalised like any other
-            z = r.choice(["z", v])
-            w, x = self.body(level, depth, z)
+            z = r.choice(["z", v, None, None])
+            if z is None:
+                self.fresh += 1
+                z = "c%d" % self.fresh                  # never hidden by another parameter: usable further in
+                self.outer.append((z, level, depth))
+                try:
+                    w, x = self.body(level, depth, z)
+                finally:
+                    self.outer.pop()
+            else:
+                w, x = self.body(level, depth, z)
             return call(lam(z, w), [N(v)]), call(lam(z, x), [N(v)])
         if k == "val":
             e = call(A(N(v), "val"), [])
